@@ -5,8 +5,8 @@ REG = dict(
         "scipy.special.loggamma vs the model's Stirling logGammaF (compared to 1e-11 relative + 4x the +-8-ulp jitter spread; observed <= 0.2% of that)",
         "noisy quantile curve: |F(qtc) - level| <= 2e-5 is a theorem at exact real arithmetic for even c <= 100 (every regime) and for c = 9, "
         "c = 5 with o/(b-a) < 1/5, c = 3 with o/(b-a) < 1/50 (series regime, shipped table); for c = 1, c = 7 and the remaining scales of "
-        "c = 3, 5 it is C07's bisection bound, conditional on monotonicity and a Lipschitz constant of the real cdf (numerical, "
-        "C06), and is measured; model comparison reuses the noisy.ppf op (ties within the jitter allowance are skipped)",
+        "c = 3, 5 C07's robust-bisection bound (which needs no monotonicity of the approximated cdf) is a theorem too but exceeds 2e-5 there, "
+        "so the clause is measured on every run; model comparison reuses the noisy.ppf op (ties within the jitter allowance are skipped)",
         "integrated average curve: the accuracy clause is NOT a theorem (C08.stop_rule_not_a_bound); it is decided on every run by adaptive "
         "Gauss-Legendre quadrature of the class's own cdf; the model of the documented loop is followed for at most 2^15 integrand evaluations",
         "fork + RLIMIT_AS + wall-clock timeout as the observation of 'returns without unbounded memory growth'",
@@ -23,16 +23,15 @@ TEXT = dict(
           "optimisation and stays in [a,b]; noisy quantile curve = ppf at the level, the level lies strictly inside (0,1) for q in (0,1) and real n>0, and "
           "|F(quantile_tuning_curve(n,q,minimize)) - level| <= 2e-5 UNCONDITIONALLY in exact real arithmetic for even c <= 100 (all regimes, "
           "noisy_qtc_hits_level_even) and for c = 9 at every scale, c = 5 with o/(b-a) < 1/5, c = 3 with o/(b-a) < 1/50 of the series regime "
-          "(noisy_qtc_hits_level_odd_partial; both shapes, both directions, minimize=None), otherwise the bisection accuracy conditional on a "
-          "Lipschitz cdf; "
-          "the integration loop's state is exactly the composite trapezoid sum on 2^i panels, what it returns is such a sum at a round i>3 "
-          "with |T_i-T_(i-1)|<3 atol (`_partial`), tail bookkeeping max(0,lo)+min(0,hi); NEGATIVE result decided by the kernel on the loop "
+          "(noisy_qtc_hits_level_odd_partial; both shapes, both directions, minimize=None), otherwise C07's robust-bisection bound, which is larger than 2e-5 (clause measured there); "
+          "the integration loop's state is exactly the composite trapezoid sum on 2^i panels, what the REPAIRED loop (fix commits 867c66b, fd4085d) returns is lo + T_i at a round i>3 "
+          "with the Richardson estimate err <= atol (`_partial`), where E = lo + int(1-G) on [lo,hi]; NEGATIVE result decided by the kernel on the loop "
           "model at Rat: a continuous CDF for which the rule stops at round 4 with error 30000 atol (so the accuracy clause cannot be a "
-          "theorem); F5 as a theorem (point mass: the loop never stops). Correspondence: both classes against the Float models, Spec oracle "
+          "theorem); the point mass a=b, o=0 returns a at round 4 (navg_point_mass_returns; F5, found here, is repaired). Correspondence: both classes against the Float models, Spec oracle "
           "(mpmath closed forms, adaptive quadrature of the class's own cdf) at the property's tolerances on every run, every integrated "
           "call under a memory/time guard.",
-    note="Findings on the unchanged tree: F4 (premature convergence of the trapezoid rule when 0 lies inside [a-6o,b+6o]) and F5 (a=b, o=0 "
-         "never returns). Not proved: the accuracy of the integrated curve (false for the documented algorithm in general), the "
+    note="F4 (premature convergence of the trapezoid rule when 0 lies inside [a-6o,b+6o]) and F5 (a=b, o=0 never returned) were found by this "
+         "check and are repaired in /repo (867c66b, fd4085d; known_findings.json `fixed:`); no open finding. Not proved: the accuracy of the integrated curve (false for the documented algorithm in general), the "
          "noisy quantile clause for c = 1, c = 7, c = 5 at scales >= 0.2, c = 3 at scales >= 0.02 (series regime; C07's bound exceeds the "
          "tolerance there) and under IEEE rounding.",
 )
